@@ -11,7 +11,7 @@ CMP_NEG = {'Lt': 'Ge', 'Ge': 'Lt', 'Gt': 'Le', 'Le': 'Gt', 'Eq': 'Ne', 'Ne': 'Eq
 
 
 class ExprBuilder:
-    def __init__(self, cfg, max_depth=14, fold_named=False):
+    def __init__(self, cfg, max_depth=40, fold_named=False):
         # fold_named: also fold *named* locals that have a single definition (value provenance
         # questions only; for guards this could be stale, so it is off by default)
         self.fold_named = fold_named
@@ -19,6 +19,7 @@ class ExprBuilder:
         self.body = cfg.body
         self.max_depth = max_depth
         self._memo = {}
+        self._visiting = set()
 
     def target(self, p):
         """expression of an assignment target: the place itself, never folded into its definition"""
@@ -75,13 +76,21 @@ class ExprBuilder:
         if sd is None or depth > self.max_depth:
             name = body.name_of(l) or ('arg%d' % l if l <= body.arg_count else '_%d' % l)
             return ('place', name)
-        if sd[1] == 'call':
-            t = sd[2]
-            c = t.callee
-            e = ('call', c.path if c else '<indirect>', tuple(self.operand(a, depth + 1) for a in t.args))
-        else:
-            e = self.rvalue(sd[2].rv, depth + 1)
-        self._memo[l] = e
+        if l in self._visiting:
+            name = body.name_of(l) or '_%d' % l
+            return ('place', name)
+        self._visiting.add(l)
+        try:
+            if sd[1] == 'call':
+                t = sd[2]
+                c = t.callee
+                e = ('call', c.path if c else '<indirect>', tuple(self.operand(a, depth + 1) for a in t.args))
+            else:
+                e = self.rvalue(sd[2].rv, depth + 1)
+        finally:
+            self._visiting.discard(l)
+        if depth < 12:
+            self._memo[l] = e
         return e
 
     def operand(self, o, depth=0):
